@@ -18,7 +18,7 @@ pub fn oracles_for(name: &str) -> Oracles {
         "c01" => Oracles { leaf_grads: true, panics_fail: true, ..Default::default() },
         "c03" => Oracles { leaf_grads: true, inner_grads: true, grad_shapes: true, panics_fail: true, ..Default::default() },
         "c08" => Oracles { immutable: true, ..Default::default() },
-        "c09" => Oracles { grad_absence: true, flags: true, result_tracking: true, ..Default::default() },
+        "c09" => Oracles { grad_absence: true, grad_presence: true, flags: true, result_tracking: true, ..Default::default() },
         "c18" => Oracles { ownership: true, ..Default::default() },
         "c11" => Oracles { custom_log: true, panics_fail: true, ..Default::default() },
         "c19" => Oracles { forward: true, leaf_grads: true, grad_shapes: true, result_tracking: true, panics_fail: true, ..Default::default() },
@@ -71,6 +71,7 @@ pub fn hist_sample(h: &History) -> Value {
             Step::Update { lr, params } => format!("update(lr={}, {:?})", lr, params),
             Step::ProbeSole { h } => format!("probe_sole_owner(h{})", h),
             Step::Copy { h } => format!("copy(h{})", h),
+            Step::RefusedOp { h } => format!("refused_custom_op(h{})", h),
         })
         .collect();
     json!(steps)
